@@ -130,6 +130,7 @@ def main():
     if a.replay:
         rp, o = native(json.load(open(a.replay))['case']); print(o); sys.exit(1 if rp else 0)
     rep = R.Report('C13', a.tier, seed); timeout = solve.TIMEOUT_MS[a.tier]
+    R.prefetch_native('props.c13_native', ['bounded', str(seed), a.tier])      # the stand-in runs while the obligations are discharged
     u = DCm.Dist()
     for k in ('MIADistinguisherMixin._accumulate_core', 'MIADistinguisherMixin._compute', 'MIADistinguisherMixin._compute_pdf', 'MIADistinguisherMixin.bin_edges', 'MIADistinguisherMixin._accumulate', '_set_histogram_parameters'): rep.function(MM + '::' + k, u.sha(MM + '::' + k))
     units = []
